@@ -6,6 +6,8 @@ CONSTANTS
   MaxOps = 6
   Notifs <- NotifsS
   MaxNotif = 2
+  MaxDup = 0
+  DistinctPatterns = FALSE
   Bug = "none"
   OneQueryPerCmd = FALSE
 CHECK_DEADLOCK FALSE
